@@ -26,7 +26,7 @@ _selftest = {}
 
 
 def cases(tier, seed):
-    n = 192 if tier == "quick" else 9600
+    n = 192 if tier == "quick" else 6400
     out = [{"seed": seed, "idx": i, "deep": bool(tier == "thorough" and i % 8 == 0)} for i in range(n)]
     out += [{"seed": seed, "idx": i, "closure": True} for i in range(n // 4)]
     return out
